@@ -37,7 +37,12 @@ shutil.copy("%s/demo_%s.py" % (src, v), out + "/demo.py")
 shutil.copy("%s/demo_%s.py" % (src, v), wt + "/demo_seed.py")
 meta = {"property": pid, "variant": v, "repo_head": head}
 try:
-    am = json.load(open(src + "/meta.json"))
+    import glob as _g
+    am = None
+    for mf in sorted(_g.glob(src + "/meta*.json")):
+        cand = json.load(open(mf))
+        if v in cand.get("variants", {}):
+            am = cand
     meta["author_summary"] = am["variants"][v].get("summary")
     meta["needs_to_manifest"] = am["variants"][v].get("needs_to_manifest")
 except Exception as e:  # noqa
